@@ -349,8 +349,12 @@ func (tree *Rtree) Delete(obj geom.Geom) bool {
 	tree.condenseTree(n)
 	tree.size--
 
-	if !tree.root.leaf && len(tree.root.entries) == 1 {
+	// Shorten the tree while the root has a single child, keeping the
+	// height and the parent link of the new root up to date.
+	for !tree.root.leaf && len(tree.root.entries) == 1 {
 		tree.root = tree.root.entries[0].child
+		tree.root.parent = nil
+		tree.height--
 	}
 
 	return true
